@@ -1008,8 +1008,14 @@ func (p *partition) handleLeaderOffsetRequest(msg *nats.Msg) {
 		p.srv.logger.Errorf("Invalid leader epoch offset request for partition %s: %v", p, err)
 		return
 	}
+	endOffset := p.log.LastOffsetForLeaderEpoch(req.LeaderEpoch)
+	if p.log.LastLeaderEpoch() > req.LeaderEpoch {
+		// There is a later epoch, so this is its start offset. The last offset
+		// of the requested epoch is the one before it.
+		endOffset--
+	}
 	resp, err := proto.MarshalLeaderEpochOffsetResponse(&proto.LeaderEpochOffsetResponse{
-		EndOffset: p.log.LastOffsetForLeaderEpoch(req.LeaderEpoch),
+		EndOffset: endOffset,
 	})
 	if err != nil {
 		panic(err)
